@@ -3,6 +3,7 @@ mod charset;
 mod genx;
 mod head;
 mod hostile;
+mod sendloop;
 mod transport;
 mod util;
 
@@ -126,6 +127,7 @@ fn run_all(kind: &str, input: &str, outdir: &str, threads: usize, budget: Durati
                                 _ => exchange::run(&sc),
                             },
                             "hostile" => hostile::run(&sc),
+                            "loop" => sendloop::run(&sc),
                             "charset" => {
                                 if util::gs(&sc, "kind") == "charset" {
                                     let thorough = std::env::var("VERIF_TIER").map(|t| t == "thorough").unwrap_or(false);
